@@ -121,11 +121,7 @@ func setupEng(it *Item) *engCtx {
 	c.stdA = regexp.MustCompile(`^(?:` + it.Pattern + `)`)
 	c.stdAL = regexp.MustCompile(`^(?:` + it.Pattern + `)`)
 	c.stdAL.Longest()
-	if len(it.Alpha) > 4 && it.Alpha[:4] == "set:" {
-		for i := 4; i < len(it.Alpha); i++ {
-			c.set[it.Alpha[i]] = true
-		}
-	}
+	setSet(&c.set, it.Alpha)
 	return c
 }
 
